@@ -89,6 +89,16 @@ CHECKS['C19'] = dict(
     technique="Coq proof (stream invariant disk+buf=written while good, for any flush policy and fault index) + exhaustive LD_PRELOAD fault enumeration on each output channel",
     ref="5/C19")
 
+CHECKS['C17'] = dict(
+    text="Proof: Filename::standardize (model transcribing the component loop) is idempotent for every path and, in any file system and from any working directory, denotes the same "
+         "position as the original whenever the kernel resolves the original and no symbolic link is traversed; with a symlink, and for 'a/..' (empty name), the statement is refuted by "
+         "witnesses that are replayed on the real tools (recorded findings). find_include returns the first existing candidate in the stated order and assigns S_local only for "
+         "command-line files and the working-directory rule. Correspondence: every path over {., .., a, b} up to length 5 (7 thorough) through the real Filename class with os.stat as "
+         "denotation oracle; random include trees (which file is read, whether it is exported); a #pragma once file under 8x8 spellings incl. symlinks.",
+    note=TB + "the kernel (os.stat on a real directory tree) is the reference for what a path denotes; make_canonical/realpath is exercised (once-only stream) but not modelled.",
+    technique="Coq proof (stack simulation between lexical normalisation and kernel path walk; first-hit search) + exhaustive small-scope differential check with the kernel as oracle",
+    ref="5/C17")
+
 PENDING = {
 }
 
